@@ -135,6 +135,11 @@ fn created_full(
             ALL_NODES.with(|i| i.borrow_mut().push((tag, node.weak())));
         }
     }
+    let env_refs: Vec<Tag> = match &kind {
+        MKind::Bind => cx.env.keys().chain(cx.vars.keys()).copied().collect(),
+        MKind::Writer(_) => writes.iter().map(|w| w.var_tag).collect(),
+        _ => vec![],
+    };
     log(Event::Created {
         tag,
         desc: NodeDesc {
@@ -145,6 +150,7 @@ fn created_full(
             arms,
             cutoff: CutKind::PartialEq,
             writes,
+            env_refs,
         },
     });
 }
